@@ -285,6 +285,63 @@ func mutate(stream []byte, ps *container.Stream, m totMut, ckSize int) []byte {
 			pl = append(pl, p)
 		}
 		return rebuild(h, pl, true)
+	case "degenerate-block":
+		// stream assembled from scratch: the seed's header (a chain of one or several transforms, entropy forced to NONE so that
+		// the stage input is raw in the payload, checksum kept or dropped) followed by blocks whose stored length is tiny
+		// (1..40 bytes: header-only inputs of the stages) and whose content declares sizes 0 / 1 / huge in its first bytes
+		h := ps.Hdr
+		h.Entropy = 0
+		ck := ckSize
+		if m.C&1 == 0 {
+			ck = 0
+		}
+		h.CkSize = ck
+		h.SzMask, h.Size = 0, 0
+		var pl []*container.Bits
+		nblk := 1 + int(m.C>>1)&1
+		for k := 0; k < nblk; k++ {
+			L := 1 + (int(m.B)+k*7)%40 // systematic: B = stored length - 1, A = content pattern, C = checksum / blocks / form bits
+			p := &container.Bits{}
+			// no stage skipped: mode low nibble = skip flags of the first four stages (0 = apply)
+			if (m.C>>2)&1 == 1 {
+				p.Put(uint64(0x10), 8) // "more than 4 transforms" form: explicit skip flag byte
+				p.Put(0, 8)
+			} else {
+				p.Put(0, 8)
+			}
+			p.Put(uint64(L), 8)
+			if ck > 0 {
+				p.Put(r.U64(), ck)
+			}
+			raw := make([]byte, L)
+			switch int(m.A) % 6 {
+			case 0: // all zero: every declared size / index is 0
+			case 1:
+				for i := range raw {
+					raw[i] = 0xFF
+				}
+			case 2:
+				r.Fill(raw)
+				for i := 0; i < 4 && i < L; i++ {
+					raw[i] = 0
+				}
+			case 3:
+				r.Fill(raw)
+				if L >= 4 {
+					raw[0], raw[1], raw[2], raw[3] = 0, 0, 0, byte(1+m.B%3)
+				}
+			case 4:
+				r.Fill(raw)
+				if L >= 4 {
+					raw[0], raw[1], raw[2], raw[3] = byte(1+m.B%3), 0, 0, 0
+				}
+			default:
+				r.Fill(raw)
+			}
+			p.PutBits(raw, 0, 8*L)
+			pl = append(pl, p)
+		}
+		return rebuild(h, pl, true)
 	case "random-bytes":
 		g := make([]byte, int(m.B)%3000)
 		r.Fill(g)
@@ -374,7 +431,7 @@ func c03(run *core.Run, replay string) {
 	run.SetRule("structure-aware hostile inputs derived from valid seed streams of every transform and entropy codec through the independent container code: header fields rewritten with the header check recomputed " +
 		"(entropy / transform ids incl. reserved and gapped chains, block size, size field, version, checksum size), forged block length prefixes and widths (up to 2^34 bits), mode byte / skip flags / stored length, " +
 		"codec headers (first bytes of the entropy or raw transform data: Huffman/ANS/range tables, LZ/ROLZ/RLT/TEXT/UTF headers, every BWT primary index incl. > 4 MiB blocks), random payload damage, truncation, " +
-		"duplicated / dropped / swapped blocks, copy blocks longer than the block size with a small declared size, garbage after a valid header; decoded in child processes with jobs 1..8 under a CPU budget. " +
+		"duplicated / dropped / swapped blocks, copy blocks longer than the block size with a small declared size, degenerate blocks (stored length 1..40 with declared inner sizes 0 / 1 / huge, checksum on and off), garbage after a valid header; decoded in child processes with jobs 1..8 under a CPU budget. " +
 		"Oracle: the child survives, no panic escapes Read, CPU budget not exceeded twice. non-trivial = the input differs from the seed and the decoder ended with an error or recovered a panic; distinct = (seed, mutation, jobs)")
 	run.Assume("'bounded by the declared block sizes' is restated as a CPU budget of 120 s per input (isolated re-run: 480 s; CPU time includes the spinning of sibling tasks); allocations up to the declared (possibly forged) lengths are legitimate")
 	if replay != "" {
@@ -434,6 +491,20 @@ func c03(run *core.Run, replay string) {
 					continue
 				}
 				tcs = append(tcs, &totCase{R: seeds[si], Mut: totMut{Kind: k, A: int64(r.Intn(1 << 20)), B: int64(r.Intn(1 << 20)), C: int64(r.Intn(1 << 20))}, Jobs: uint(1 + r.Intn(8))})
+			}
+		}
+		if strings.HasSuffix(seeds[si].Name, "-none") || strings.HasPrefix(seeds[si].Name, "seed-level") {
+			// degenerate blocks, systematically: stored length 1..40 (24 in the quick tier) x 6 content patterns x checksum on/off
+			maxL := run.Pick(24, 40)
+			for L := 0; L < maxL; L++ {
+				for pat := 0; pat < 6; pat++ {
+					for ckb := 0; ckb < 2; ckb++ {
+						if strings.HasPrefix(seeds[si].Name, "seed-level") && (L+pat+ckb)%3 != 0 {
+							continue
+						}
+						tcs = append(tcs, &totCase{R: seeds[si], Mut: totMut{Kind: "degenerate-block", A: int64(pat), B: int64(L), C: int64(ckb | (L&1)<<1 | (pat&1)<<2)}, Jobs: uint(1 + (L+pat)%4)})
+					}
+				}
 			}
 		}
 		if strings.Contains(seeds[si].Name, "-BWT-none") || strings.Contains(seeds[si].Name, "seed-bwt-NONE") {
